@@ -8,12 +8,24 @@ use std::panic::{self, AssertUnwindSafe};
 
 //-----------------------------------------------------------------------------
 
+// Two modes: a SplitMix64 stream (every registered workload), or a byte string supplied by a coverage-guided fuzzer
+// (fuzz.rs) that is consumed decision by decision; once the bytes run out the stream continues pseudo-randomly from a
+// hash of the bytes, so every generator terminates exactly as it does in the first mode.
 #[derive(Clone, Debug)]
-pub struct Rng(u64);
+pub struct Rng(u64, Option<(std::rc::Rc<Vec<u8>>, usize)>);
 
 impl Rng {
     pub fn new(seed: u64) -> Rng {
-        Rng(seed ^ 0x9E37_79B9_7F4A_7C15)
+        Rng(seed ^ 0x9E37_79B9_7F4A_7C15, None)
+    }
+
+    pub fn from_bytes(data: &[u8]) -> Rng {
+        Rng(hash_bytes(data) ^ 0x9E37_79B9_7F4A_7C15, Some((std::rc::Rc::new(data.to_vec()), 0)))
+    }
+
+    // Bytes of the fuzzer input not yet consumed (0 in the pseudo-random mode).
+    pub fn bytes_left(&self) -> usize {
+        match &self.1 { Some((d, p)) => d.len().saturating_sub(*p), None => 0 }
     }
 
     pub fn derive(seed: u64, a: u64, b: u64) -> Rng {
@@ -23,7 +35,22 @@ impl Rng {
         r
     }
 
+    // Little-endian integer from the next `n` input bytes, if the byte mode still has that many.
+    fn take(&mut self, n: usize) -> Option<u64> {
+        if let Some((d, p)) = &mut self.1 {
+            if *p + n <= d.len() {
+                let mut v = 0u64;
+                for i in 0..n { v |= (d[*p + i] as u64) << (8 * i); }
+                *p += n;
+                return Some(v);
+            }
+            *p = d.len();
+        }
+        None
+    }
+
     pub fn next_u64(&mut self) -> u64 {
+        if self.1.is_some() { if let Some(v) = self.take(8) { return v; } }
         self.0 = self.0.wrapping_add(0x9E37_79B9_7F4A_7C15);
         let mut z = self.0;
         z = (z ^ (z >> 30)).wrapping_mul(0xBF58_476D_1CE4_E5B9);
@@ -31,10 +58,19 @@ impl Rng {
         z ^ (z >> 31)
     }
 
+    // As few input bytes as the range needs (byte mode), else a full word.
+    fn draw(&mut self, n: u64) -> u64 {
+        if self.1.is_some() {
+            let bytes = if n <= 1 << 8 { 1 } else if n <= 1 << 16 { 2 } else if n <= 1 << 32 { 4 } else { 8 };
+            if let Some(v) = self.take(bytes) { return v; }
+        }
+        self.next_u64()
+    }
+
     // Uniform in 0..n (n > 0).
     pub fn below(&mut self, n: usize) -> usize {
         if n <= 1 { return 0; }
-        (self.next_u64() % (n as u64)) as usize
+        (self.draw(n as u64) % (n as u64)) as usize
     }
 
     // Uniform in lo..=hi.
@@ -42,7 +78,7 @@ impl Rng {
         if hi <= lo { return lo; }
         let span = (hi - lo) as u64;
         if span == u64::MAX { return self.next_u64() as usize; }
-        lo + (self.next_u64() % (span + 1)) as usize
+        lo + (self.draw(span + 1) % (span + 1)) as usize
     }
 
     pub fn chance(&mut self, num: usize, den: usize) -> bool {
@@ -175,6 +211,8 @@ pub struct Ctx {
     pub case_no: u64,
     pub budget: u64,
     pub budget_hit: bool,
+    // Coverage-guided leg (fuzz.rs): when set, every generator of the selected case draws its decisions from these bytes.
+    pub fuzz: Option<std::rc::Rc<Vec<u8>>>,
 }
 
 pub const MAX_DIGESTS: usize = 60_000;
@@ -191,6 +229,7 @@ impl Ctx {
     }
 
     pub fn rng(&self, stream: u64) -> Rng {
+        if let Some(data) = &self.fuzz { return Rng::from_bytes(data); }
         Rng::derive(self.seed, self.shard as u64, stream)
     }
 
